@@ -416,24 +416,38 @@ def framesOfBytes (items : List ByteItem) : List (Res FErr Frame) :=
 /-- the packets a receiver may deliver *intact* out of a frame sequence, whatever its policy towards damaged frames and
 pending packets: for every position, what a fresh receiver that starts there delivers first (undecodable frames in
 between skipped), if it delivers before it reports a reassembly error -/
-def intactCandidates (frames : List (Res FErr Frame)) : List String :=
-  let rec first (st : RxSt) (l : List (Res FErr Frame)) : Option Packet :=
+def intactCandidatesAt (frames : List (Res FErr Frame)) : List (Nat × Nat × String) :=
+  -- (start index, number of frames consumed up to the delivery, packet)
+  let rec first (st : RxSt) (l : List (Res FErr Frame)) (n : Nat) : Option (Packet × Nat) :=
     match l with
     | [] => none
     | .ok f :: t =>
       match rxStep st f with
-      | (_, some (.packet p)) => some p
+      | (_, some (.packet p)) => some (p, n + 1)
       | (_, some _) => none
-      | (st', none) => first st' t
-    | _ :: t => first st t
-  let rec all (l : List (Res FErr Frame)) (acc : List String) : List String :=
+      | (st', none) => first st' t (n + 1)
+    | _ :: t => first st t (n + 1)
+  let rec all (l : List (Res FErr Frame)) (i : Nat) (acc : List (Nat × Nat × String)) : List (Nat × Nat × String) :=
     match l with
     | [] => acc
     | x :: t =>
-      match first none (x :: t) with
-      | some p => all t (showOutShort (.emit (.packet p)) :: acc)
-      | none => all t acc
-  all frames []
+      match first none (x :: t) 0 with
+      | some (p, n) => all t (i + 1) ((i, n, showOutShort (.emit (.packet p))) :: acc)
+      | none => all t (i + 1) acc
+  all frames 0 []
+
+def intactCandidates (frames : List (Res FErr Frame)) : List String := (intactCandidatesAt frames).map (·.2.2)
+
+/-- the two probe packets of a hostile history: the packet whose frames end the frame sequence, and the one whose frames
+end where that one starts -/
+def probesOf (frames : List (Res FErr Frame)) : Option (String × String) :=
+  let cs := intactCandidatesAt frames
+  match cs.find? (fun (i, n, _) => i + n == frames.length) with
+  | none => none
+  | some (ib, _, pb) =>
+    match cs.find? (fun (i, n, _) => i + n == ib) with
+    | none => none
+    | some (_, _, pa) => some (pa, pb)
 
 /-- C06 on the implementation's own answer: never a panic or a spin, the second probe is delivered last, and nothing is
 delivered altered or merged: every delivered packet is one the (provably merge-free) model delivers, or one a fresh
@@ -449,14 +463,21 @@ def rxOracle (link items : String) (implObs modelObs : String) : Option String :
     if iok.getLast? != mok.getLast? then some "the second probe packet is not the last packet delivered intact"
     else
       let extra := iok.filter fun p => !mok.contains p
-      if extra.isEmpty then none
+      let frames : List (Res FErr Frame) :=
+        if link == "can" then ((parseCanItems items).getD []).filterMap fun | .frame c => some (fromCan c) | _ => none
+        else framesOfBytes ((parseByteItems items).getD [])
+      if !extra.isEmpty && extra.any (fun p => !(intactCandidates frames).contains p) then
+        some "a packet was delivered that is not an intact packet of the traffic (altered or merged)"
       else
-        let frames : List (Res FErr Frame) :=
-          if link == "can" then ((parseCanItems items).getD []).filterMap fun | .frame c => some (fromCan c) | _ => none
-          else framesOfBytes ((parseByteItems items).getD [])
-        let cands := intactCandidates frames
-        if extra.any (fun p => !cands.contains p) then some "a packet was delivered that is not an intact packet of the traffic (altered or merged)"
-        else none
+        -- the first probe: delivered intact, or dropped with an error (an error reported after the last delivery that
+        -- precedes the second probe)
+        match probesOf frames with
+        | none => none
+        | some (pa, _) =>
+          let beforeB := ie.reverse.drop 1      -- emissions before the last one (the second probe), latest first
+          let window := beforeB.takeWhile (fun x => !x.startsWith "ok(")
+          if iok.contains pa || window.contains "err" then none
+          else some "the first probe packet is neither delivered nor dropped with an error"
 
 def rxModel (link items : String) : Option String :=
   if link == "can" then (parseCanItems items).map fun s => showTrace (canPollsSt none s)
